@@ -58,6 +58,12 @@ Fixpoint list_set {A : Type} (l : list A) (i : nat) (v : A) : list A :=
   end.
 Definition go_set {A : Type} (l : list A) (i : Z) (v : A) : list A := list_set l (Z.to_nat i) v.
 
+(* copy(x[lo:], src) on an array value x: min(len(x)-lo, len(src)) elements are overwritten *)
+Definition go_copy_at {A : Type} (l : list A) (lo : Z) (src : list A) : list A :=
+  let k := Z.to_nat lo in
+  let n := Nat.min (length l - k) (length src) in
+  firstn k l ++ firstn n src ++ skipn (k + n) l.
+
 (* T{} for an array type [n]T with integer elements *)
 Definition go_zeros (n : Z) : list Z := repeat 0 (Z.to_nat n).
 
@@ -107,6 +113,17 @@ Definition be_uint64 (b : list Z) : Z := be_uint_from 8 b 0.
 Definition be_append_uint16 (b : list Z) (v : Z) : list Z :=
   b ++ [wrap_u8 (Z.shiftr v 8); wrap_u8 v].
 
+(* PutUintN(x[lo:], v) on an array value x (N = 8n): b[0] = byte(v >> (N-8)), ..., b[n-1] = byte(v);
+   panics unless len(x[lo:]) >= n (guard emitted by the translator) *)
+Fixpoint be_bytes (n : nat) (v : Z) : list Z :=
+  match n with
+  | O => []
+  | S n' => be_bytes n' (Z.shiftr v 8) ++ [wrap_u8 v]
+  end.
+Definition be_put_uint (n : Z) (l : list Z) (lo v : Z) : list Z :=
+  let k := Z.to_nat lo in
+  firstn k l ++ be_bytes (Z.to_nat n) v ++ skipn (k + Z.to_nat n) l.
+
 (* ------------------------------------------------------------------ bytes *)
 (* bytes.HasPrefix(s, prefix) = len(s) >= len(prefix) && bytes.Equal(s[:len(prefix)], prefix) *)
 Fixpoint bytes_has_prefix (s p : list Z) {struct p} : bool :=
@@ -135,3 +152,8 @@ Definition bits_mul64 (x y : Z) : Z * Z := (Z.quot (x * y) (2 ^ 64), Z.rem (x * 
 Definition bits_div64_ok (hi lo y : Z) : bool := negb (y =? 0) && (hi <? y).
 Definition bits_div64 (hi lo y : Z) : Z * Z :=
   (Z.quot (hi * 2 ^ 64 + lo) y, Z.rem (hi * 2 ^ 64 + lo) y).
+(* Add64(x, y, carry) (sum, carryOut): sum = x + y + carry;
+   carryOut = ((x & y) | ((x | y) &^ sum)) >> 63   (the library's own formula, exact for every carry) *)
+Definition bits_add64 (x y carry : Z) : Z * Z :=
+  let sum := wrap_u64 (x + y + carry) in
+  (sum, Z.shiftr (Z.lor (Z.land x y) (Z.ldiff (Z.lor x y) sum)) 63).
